@@ -11,6 +11,7 @@ import Driver.FuelOps
 import Driver.ResultOps
 import Driver.StorageOps
 import Driver.PmsOps
+import Driver.BusOps
 open Lean Driver
 
 def dispatch (op : String) (j : Json) : Except String Json :=
@@ -19,6 +20,7 @@ def dispatch (op : String) (j : Json) : Except String Json :=
   | "result" => resultOp op j
   | "storage" => storageOp op j
   | "pms" => pmsOp op j
+  | "bus" => busOp op j
   | _ => .error s!"unknown op family in '{op}'"
 
 def handle (line : String) : String :=
